@@ -760,11 +760,13 @@ func (tx *Tx) PrefixScan(bucket string, prefix []byte, offsetNum int, limitNum i
 	}
 
 	if idx, ok := tx.db.BPTreeIdx[bucket]; ok {
-		records, voff, err := idx.PrefixScan(prefix, offsetNum, limitNum)
+		// offset and limit count live keys only: page after dropping the
+		// deleted and expired records, not before
+		records, _, err := idx.PrefixScan(prefix, 0, ScanNoLimit)
 		if err != nil {
-			off = voff
 			return nil, off, ErrPrefixScan
 		}
+		records, voff := pageLiveRecords(records, offsetNum, limitNum)
 
 		es, err = tx.getHintIdxDataItemsWrapper(records, limitNum, es, PrefixScan)
 		if err != nil {
@@ -796,11 +798,13 @@ func (tx *Tx) PrefixSearchScan(bucket string, prefix []byte, reg string, offsetN
 	}
 
 	if idx, ok := tx.db.BPTreeIdx[bucket]; ok {
-		records, voff, err := idx.PrefixSearchScan(prefix, reg, offsetNum, limitNum)
+		// the limit counts live matching keys only
+		records, voff, err := idx.PrefixSearchScan(prefix, reg, offsetNum, ScanNoLimit)
 		if err != nil {
 			off = voff
 			return nil, off, ErrPrefixSearchScan
 		}
+		records, _ = pageLiveRecords(records, 0, limitNum)
 
 		es, err = tx.getHintIdxDataItemsWrapper(records, limitNum, es, PrefixSearchScan)
 		if err != nil {
@@ -817,6 +821,34 @@ func (tx *Tx) PrefixSearchScan(bucket string, prefix []byte, reg string, offsetN
 	}
 
 	return
+}
+
+// pageLiveRecords drops the deleted and expired records, skips the first
+// offsetNum of the rest and keeps at most limitNum of them when limitNum > 0.
+// It returns the page and the number of records skipped.
+func pageLiveRecords(records Records, offsetNum int, limitNum int) (Records, int) {
+	live := make(Records, 0, len(records))
+	for _, r := range records {
+		if r.H.meta.Flag == DataDeleteFlag || r.IsExpired() {
+			continue
+		}
+		live = append(live, r)
+	}
+
+	off := offsetNum
+	if off > len(live) {
+		off = len(live)
+	}
+	if off < 0 {
+		off = 0
+	}
+	live = live[off:]
+
+	if limitNum > 0 && len(live) > limitNum {
+		live = live[:limitNum]
+	}
+
+	return live, off
 }
 
 // Delete removes a key from the bucket at given bucket and key.
